@@ -22,7 +22,7 @@ LEVEL_TEXT = ("Props/C12.v: 10 theorems universally quantified over reduced phas
 LEVEL_NOTE = ("Trusted: Coq kernel + vm_compute, extraction, driver.ml, harness, numpy as executor. Axioms: stdlib real-number axioms + "
               "Classical_Prop.classic for theorems over R/C (layout and parity theorems are axiom-free).")
 RULE = ("reduced-phase vectors of length 1..60 (quick: 1..12, 20, 33, 60), both parities, entries generic / multiples of pi/8 / tiny / "
-        "large; update histories of length 0..20 with the object used (response + Jacobian) between updates in half of the cases; "
+        "large; update histories of length 0..20 (a third with vectors that grow and shrink) with the object used (response + Jacobian) between updates in half of the cases; "
         "sample points incl. -1, 0, 1; distinct by JSON; non-trivial = at least 2 reduced phases")
 TRUSTED = ["Coq 8.16.1 kernel incl. vm_compute", "extraction (ExtrOcamlBasic, ExtrOcamlZBigInt) + driver.ml + zarith, cross-checked in Coq on a slice",
            "harness (impl_runner.py, impl_handlers4.py)", "numpy as executor of the implementation"]
@@ -52,7 +52,12 @@ def run(ctx):
             for parity in (0, 1):
                 for rep in range(1 if quick else 3):
                     nh = rng.choice([0, 1, 2, 5, 20]) if k <= 12 else rng.choice([0, 1, 3])
-                    hist = [gen_red(rng, k) for _ in range(nh)]
+                    if rng.random() < 0.35 and nh:       # histories whose vectors grow and shrink (the last one has length k)
+                        hist = [gen_red(rng, rng.randint(1, k + 3)) for _ in range(nh - 1)] + [gen_red(rng, k)]
+                        if nh == 1:
+                            hist = [gen_red(rng, k + rng.randint(1, 3))] + hist
+                    else:
+                        hist = [gen_red(rng, k) for _ in range(nh)]
                     samples = [-1.0, 0.0, 1.0, rng.uniform(-1, 1), rng.uniform(-1, 1), 1 - 1e-9]
                     init = gen_red(rng, k)
                     int_init = rng.random() < 0.3
